@@ -425,6 +425,37 @@ func battery(e *env, viaSlow bool) []string {
 				return rscalar(fd, l.Get(l.Len()), viaSlow)
 			}))
 		}
+		// validity flags of what Get hands out, and reads one level below a message field (set or not)
+		switch {
+		case fd.IsList():
+			out = append(out, "Get("+string(fd.Name())+").List.IsValid="+try(func() string { return fmt.Sprint(e.m.Get(fd).List().IsValid()) }))
+		case fd.IsMap():
+			out = append(out, "Get("+string(fd.Name())+").Map.IsValid="+try(func() string { return fmt.Sprint(e.m.Get(fd).Map().IsValid()) }))
+		case fd.Kind() == protoreflect.MessageKind:
+			out = append(out, "Get("+string(fd.Name())+").Message.IsValid="+try(func() string { return fmt.Sprint(e.m.Get(fd).Message().IsValid()) }))
+			sfs := fd.Message().Fields()
+			for j := 0; j < sfs.Len() && j < 12; j++ {
+				g := sfs.Get(j)
+				out = append(out, "Get("+string(fd.Name())+").Get("+string(g.Name())+")="+try(func() string {
+					sub := e.m.Get(fd).Message()
+					if viaSlow {
+						sub = enum.Rewrap(sub) // the struct-reflection view of the same (possibly nil) pointer
+					}
+					gg := sub.Descriptor().Fields().ByNumber(g.Number())
+					v := sub.Get(gg)
+					valid := ""
+					switch {
+					case gg.IsList():
+						valid = fmt.Sprintf(" valid=%v", v.List().IsValid())
+					case gg.IsMap():
+						valid = fmt.Sprintf(" valid=%v", v.Map().IsValid())
+					case gg.Kind() == protoreflect.MessageKind:
+						return fmt.Sprintf("message valid=%v has=%v", v.Message().IsValid(), sub.Has(gg))
+					}
+					return rv(gg, v, viaSlow) + valid
+				}))
+			}
+		}
 	}
 	ods := e.m.Descriptor().Oneofs()
 	for i := 0; i < ods.Len(); i++ {
